@@ -240,6 +240,7 @@ func ruleBounds(p *Prog, r *Report) {
 	} else {
 		r.fail("R20.2b", "anchor|nsx ParseConfig", "", "not found", "")
 	}
+	ruleNSXSingletons(p, r, []string{"nsx.nsxRule.SourceGroups", "nsx.nsxRule.DestinationGroups", "nsx.nsxRule.Services", "nsx.nsxGroup.Expression"})
 }
 
 // ---- R20.3 ----
@@ -735,4 +736,148 @@ func ruleUnboundedLoops(p *Prog, r *Report) {
 		r.add("R20.6", "unbounded-loop|"+n, pos[n], fmt.Sprintf("%d loop(s) without condition in %s: %s", counts[n], n, row[2]), counts[n] <= a, "more unbounded loops than audited")
 	}
 	r.floor("R20.6", "functions with condition-less loops", len(names), 4)
+}
+
+// ruleNSXSingletons: R20.2d.  The content of invariant I5: for every struct
+// field that the NSX planner indexes with [0] on the strength of I5,
+// checkConfigValidity rejects a value with no element.
+func ruleNSXSingletons(p *Prog, r *Report, fields []string) {
+	r.rule("R20.2d", "Invariant I5 has the content the audit relies on: for each field indexed with [0] in an I5 row of tables/bounds_audit.tsv (nsxRule.SourceGroups, .DestinationGroups, .Services, nsxGroup.Expression) nsx.checkConfigValidity contains a test of len(<field>) whose outcome for length 0 leads straight to a return of a non-nil error, and every other condition that controls that test also ends in an error return on its other edge (so the test is evaluated for every element that passed the earlier tests).")
+	fn := p.Fn("nsx.checkConfigValidity")
+	if fn == nil {
+		r.fail("R20.2d", "anchor|nsx.checkConfigValidity", "", "not found", "")
+		return
+	}
+	// the block reached by following unconditional jumps returns a non-nil error
+	var errorExit func(b *ssa.BasicBlock, d int) bool
+	errorExit = func(b *ssa.BasicBlock, d int) bool {
+		if d > 4 {
+			return false
+		}
+		last := b.Instrs[len(b.Instrs)-1]
+		switch x := last.(type) {
+		case *ssa.Return:
+			return len(x.Results) > 0 && errProvablyNonNil(x.Results[len(x.Results)-1], b, 0)
+		case *ssa.Jump:
+			return errorExit(b.Succs[0], d+1)
+		}
+		return false
+	}
+	lenOfField := func(v ssa.Value) string {
+		c, ok := v.(*ssa.Call)
+		if !ok {
+			return ""
+		}
+		if b, ok := c.Common().Value.(*ssa.Builtin); !ok || b.Name() != "len" {
+			return ""
+		}
+		for _, rt := range valueRoots(c.Common().Args[0]) {
+			if u, ok := rt.(*ssa.UnOp); ok {
+				if fa, ok := u.X.(*ssa.FieldAddr); ok {
+					return fieldName(fa)
+				}
+			}
+			if f, ok := rt.(*ssa.Field); ok {
+				return typeShort(f.X.Type()) + "." + f.X.Type().Underlying().(*types.Struct).Field(f.Field).Name()
+			}
+		}
+		return ""
+	}
+	// edge of `i` taken when the tested length is n; -1 if i is not a length test of a field
+	edgeFor := func(i *ssa.If, n int64) (string, int) {
+		cond, neg := stripNot(i.Cond)
+		bo, ok := cond.(*ssa.BinOp)
+		if !ok {
+			return "", -1
+		}
+		fld, k, flip := lenOfField(bo.X), int64(0), false
+		if fld != "" {
+			kk, ok := constInt(bo.Y)
+			if !ok {
+				return "", -1
+			}
+			k = kk
+		} else if fld = lenOfField(bo.Y); fld != "" {
+			kk, ok := constInt(bo.X)
+			if !ok {
+				return "", -1
+			}
+			k, flip = kk, true
+		} else {
+			return "", -1
+		}
+		a, b := n, k
+		if flip {
+			a, b = k, n
+		}
+		var val bool
+		switch bo.Op {
+		case token.EQL:
+			val = a == b
+		case token.NEQ:
+			val = a != b
+		case token.LSS:
+			val = a < b
+		case token.LEQ:
+			val = a <= b
+		case token.GTR:
+			val = a > b
+		case token.GEQ:
+			val = a >= b
+		default:
+			return "", -1
+		}
+		if neg {
+			val = !val
+		}
+		if val {
+			return fld, 0
+		}
+		return fld, 1
+	}
+	found := map[string]string{}
+	for _, b := range fn.Blocks {
+		i := ifOf(b)
+		if i == nil {
+			continue
+		}
+		fld, e := edgeFor(i, 0)
+		if e < 0 {
+			continue
+		}
+		if !errorExit(b.Succs[e], 0) {
+			if _, ok := found[fld]; !ok {
+				found[fld] = "len(" + fld + ") is tested at " + p.ipos(i) + ", but a value without elements passes the test"
+			}
+			continue
+		}
+		// every other controlling condition: its other edge is an error exit too (or it is a loop condition)
+		okCtl := ""
+		for _, jb := range fn.Blocks {
+			j := ifOf(jb)
+			if j == nil || j == i || naturalLoopBody(jb) != nil {
+				continue
+			}
+			for k := range jb.Succs {
+				if edgeDominates(jb, k, b) && !errorExit(jb.Succs[1-k], 0) {
+					okCtl = "the test at " + p.ipos(i) + " is only reached under the condition at " + p.ipos(j)
+				}
+			}
+		}
+		if okCtl != "" {
+			if _, ok := found[fld]; !ok {
+				found[fld] = okCtl
+			}
+			continue
+		}
+		found[fld] = "ok"
+	}
+	for _, f := range fields {
+		st, seen := found[f]
+		if !seen {
+			st = "checkConfigValidity has no test of len(" + f + ")"
+		}
+		r.add("R20.2d", "singleton-checked|"+f, p.pos(fn.Pos()), "a "+f+" without elements is rejected by checkConfigValidity", st == "ok",
+			"the planner's "+f+"[0] (class I5 of the bounds audit) panics on such input: "+st)
+	}
 }
